@@ -85,6 +85,23 @@ func c05sessionCase(c *runner.Ctx, i int) {
 		}
 		cfg.Authenticator = gocql.PasswordAuthenticator{Username: "u", Password: "p"}
 	}
+	// event classes the application opted out of: the peer may push such events all the same
+	evOff := ""
+	if r.Intn(3) == 0 {
+		cfg.Events.DisableSchemaEvents = true
+		evOff += "schema "
+	}
+	if r.Intn(3) == 0 {
+		cfg.Events.DisableNodeStatusEvents = true
+		evOff += "status "
+	}
+	if r.Intn(3) == 0 {
+		cfg.Events.DisableTopologyEvents = true
+		evOff += "topology "
+	}
+	if evOff != "" {
+		c.Add("sessions_with_event_classes_disabled", 1)
+	}
 	c.Add("sessions", 1)
 	key := ""
 	wit := func() map[string]interface{} {
@@ -239,10 +256,26 @@ func c05sessionCase(c *runner.Ctx, i int) {
 		default:
 			// hostile EVENT frames on the control connection
 			c.Add("hostile_events", 1)
-			key = fmt.Sprintf("v%d hostile events", version)
-			c.Eval(runner.H("c05sess-ev", version, i), true)
+			key = fmt.Sprintf("v%d hostile events (event classes disabled by the application: %q)", version, evOff)
+			c.Eval(runner.H("c05sess-ev", version, evOff, i), true)
 			for round := 0; round < 8; round++ {
 				ctl := cl.ControlConn()
+				if ctl == nil || r.Intn(4) == 0 {
+					// nobody registered (every class disabled), or simply a peer that pushes events on a
+					// connection that never asked for them
+					var open []*fakenode.ServerConn
+					for _, n := range cl.Nodes {
+						for _, oc := range n.OpenConns() {
+							if oc.Ready() {
+								open = append(open, oc)
+							}
+						}
+					}
+					if len(open) > 0 {
+						ctl = open[r.Intn(len(open))]
+						c.Add("events_on_unregistered_connection", 1)
+					}
+				}
 				if ctl == nil {
 					time.Sleep(20 * time.Millisecond)
 					continue
@@ -250,6 +283,9 @@ func c05sessionCase(c *runner.Ctx, i int) {
 				sc.mu.Lock()
 				sc.kind = []int{6, 7, 7, 7}[r.Intn(4)] // event kinds of c05base (6 yields a result or an event)
 				sc.mutated = r.Intn(5) != 0
+				if evOff != "" {
+					sc.mutated = r.Intn(2) == 0
+				}
 				sc.mu.Unlock()
 				fr, desc := sc.frameFor(ctl.Version, -1)
 				if len(fr) >= cqlref.HeaderSize(ctl.Version) {
